@@ -80,6 +80,10 @@ Theorem C10_infer_sound_Div : forall v, sound_for v ODiv (fun cins _ => f70_free
 Proof. exact infer_sound_Div. Qed.
 Theorem C10_infer_sound_Equal : forall v, v_range v = range -> sound_for v OEqual (fun cins _ => f70_free2 cins).
 Proof. exact infer_sound_Equal. Qed.
+(* ---- Gather: elements of a symbolic vector selected by constant (possibly negative) indices, and
+        the shape rule data[..axis] ++ indices ++ data[axis+1..] ---- *)
+Theorem C10_infer_sound_Gather : forall v axis, sound_for v (OGather axis) no_extra.
+Proof. exact infer_sound_Gather. Qed.
 Theorem C10_F5_equal_fold_refuted :
   exists s x y vx vy e r,
     expr_cons s x vx = true /\ expr_cons s y vy = true /\
@@ -108,7 +112,7 @@ Proof. exact prop_ok_reject. Qed.
         the correspondence check) ---- *)
 Definition C10_infer_sound_values_statement : Prop :=
   forall v, v_fixed v = true ->
-    sound_for v OWhere (fun cins _ => True) /\ (forall a, sound_for v (OGather a) no_extra) /\
+    sound_for v OWhere (fun cins _ => True) /\
     (forall a, sound_for v (OConcat a) no_extra) /\ sound_for v OSqueeze no_extra /\
     sound_for v OUnsqueeze no_extra /\ (forall x, sound_for v (OConstantOfShape x) no_extra).
 
